@@ -356,21 +356,44 @@ def isInsertedStmt (roles : Roles) (s : Node) : Bool :=
       | _ => false
   | _ => false
 
-/-- strips inserted statements from statement lists and un-blocks synthetic arrow bodies — but only those the
+/- `stripRule`: strips inserted statements from statement lists and un-blocks synthetic arrow bodies — but only those the
     transform had a reason to create (a declaration was inserted into them): `(x) => e` turned into
     `(x) => { return e; }` with nothing declared is a change of the user's code -/
+/-- the bindings a (variable) declaration statement declares -/
+def declBindsOf (st : Node) : List String :=
+  match st with
+  | .mk .varDecl _ [.mk .list _ decls] =>
+    decls.filterMap fun d => match d with
+      | .mk .declarator _ (.mk .ident (_ :: bnd :: _) _ :: _) => some bnd
+      | _ => none
+  | _ => []
+
+mutual
+def mentionsAny (bs : List String) : Node → Bool
+  | .mk .ident (_ :: b :: _) _ => bs.contains b
+  | .mk _ _ ks => mentionsAnyL bs ks
+def mentionsAnyL (bs : List String) : List Node → Bool
+  | [] => false
+  | x :: xs => mentionsAny bs x || mentionsAnyL bs xs
+end
+
 def stripRule (roles : Roles) (n : Node) : Node :=
   match n with
   | .mk .stmts as items =>
     let kept := items.filter (!isInsertedStmt roles ·)
-    if kept.length != items.length then .mk .stmts ("stripped!" :: as) kept else .mk .stmts as kept
+    -- the tag remembers WHICH bindings the removed declarations declared
+    let gone := (items.filter (isInsertedStmt roles ·)).flatMap declBindsOf
+    if kept.length != items.length then .mk .stmts ("stripped!" :: ",".intercalate gone :: as) kept else .mk .stmts as kept
   | .mk .module as (.mk .list las items :: rest) => .mk .module as (.mk .list las (items.filter (!isInsertedStmt roles ·)) :: rest)
-  | .mk .arrow as [params, .mk .block ("syn" :: _) [.mk .stmts ("stripped!" :: _) [.mk .ret _ [e]]], tp, rt] => .mk .arrow as [params, e, tp, rt]
+  | .mk .arrow as [params, .mk .block ("syn" :: _) [.mk .stmts ("stripped!" :: gone :: _) [.mk .ret _ [e]]], tp, rt] =>
+    -- ... and the body is un-blocked only when the expression USES one of them: a declaration put into an arrow that has no use
+    -- for it (`(x) => x * 2` turned into `(x) => { const _t = ...; return x * 2; }`) is a change of the user's code
+    if mentionsAny (gone.splitOn ",") e then .mk .arrow as [params, e, tp, rt] else n
   | n => n
 
 def untagRule (n : Node) : Node :=
   match n with
-  | .mk .stmts ("stripped!" :: as) items => .mk .stmts as items
+  | .mk .stmts ("stripped!" :: _ :: as) items => .mk .stmts as items
   | n => n
 
 /-- the output without the statements the transform inserted -/
